@@ -77,6 +77,8 @@ THEOREMS = [
     "JanetModel.Props.C01.builder_family_cannot_collect",
     "JanetModel.Props.C01.family_in_closure",
     "JanetModel.Props.C01.begin_end_windows_covered",
+    "JanetModel.Props.C01.callgraph_unlocked_closed",
+    "JanetModel.Props.C01.collect_chain_passes_gclock",
     "JanetModel.Props.C01.c_local_windows_partial",
 ]
 H = os.path.join(VERIF, "harness/C01")
@@ -158,6 +160,9 @@ def run_job(exes, job, tmp):
 def parse_report(rep):
     findings = [l for l in rep.splitlines() if l.startswith("FINDING")]
     summary, labels, crit = {}, {}, {}
+    for l in rep.splitlines():
+        if l.startswith("STACK "):
+            STACKS.add(l)
     for l in rep.splitlines():
         if l.startswith("SUMMARY"):
             for kv in l.split()[1:]:
@@ -330,10 +335,57 @@ def roots_stage(ctx, quick, driver, gen_info, broken, only=None):
 
 
 CPU0 = [0.0]
+STACKS = set()      # distinct C call stacks seen at collections (raw report lines of the plain graph runs)
+
+
+def stacks_stage(ctx, exe, gen_info, broken):
+    """Dynamic tie of the call-graph certificate: resolve the recorded return addresses with the executable's symbol table; a
+    function of the library that was on the C stack while janet_collect ran must be in the regenerated may-collect set."""
+    rw = gen_info.get("rootwin")
+    if not rw or not STACKS:
+        return {}
+    rc, out, err = run_cmd(["nm", "-n", "--defined-only", exe], timeout=300)
+    syms = []
+    for l in out.decode(errors="replace").splitlines():
+        f = l.split()
+        if len(f) == 3 and f[1] in "tTwW":
+            syms.append((int(f[0], 16), f[2].split(".")[0]))
+    syms.sort()
+    addr_of = {n: a for a, n in syms}
+    if "janet_collect" not in addr_of:
+        broken.append("symbol table of the harness has no janet_collect: C stacks at collections cannot be resolved")
+        ctx.broken.append(broken[-1])
+        return {}
+    import bisect
+    keys = [a for a, _ in syms]
+    may = set(rw["may_collect_names"])
+    lib = set(rw.get("function_names", ()))
+    seen_fns, bad, nframes = {}, {}, 0
+    for l in STACKS:
+        f = l.split()
+        slide = int(f[1].split("=")[1], 16) - addr_of["janet_collect"]
+        for a in f[2:]:
+            x = int(a, 16) - slide - 1
+            if x < keys[0] or x > keys[-1] + 65536:
+                continue          # libc / loader frame
+            name = syms[bisect.bisect_right(keys, x) - 1][1]
+            nframes += 1
+            seen_fns[name] = seen_fns.get(name, 0) + 1
+            if name in lib and name not in may:
+                bad.setdefault(name, l)
+    for name, l in sorted(bad.items()):
+        broken.append("call-graph certificate contradicted by a run: %s was on the C stack during a collection, but the regenerated "
+                      "call graph says it cannot reach janet_collect (missed call edge)" % name)
+        ctx.broken.append(broken[-1])
+    on_stack_may = sorted(n for n in seen_fns if n in may)
+    return {"distinct_stacks": len(STACKS), "frames_resolved": nframes, "library_functions_seen_on_a_collecting_stack": len([n for n in seen_fns if n in lib]),
+            "of_the_may_collect_set_seen": "%d of %d" % (len(on_stack_may), len(may)), "seen": on_stack_may,
+            "contradictions": sorted(bad)}
 
 
 def run(ctx, only_replay=None):
     quick = ctx.tier == "quick"
+    STACKS.clear()
     ru = resource.getrusage(resource.RUSAGE_CHILDREN)
     CPU0[0] = ru.ru_utime + ru.ru_stime
     broken = []
@@ -359,8 +411,8 @@ def run(ctx, only_replay=None):
         text, rw_info = gen_gcroot.render(ctx.build)
         ctx.gen("GCRoot.lean", text)
         gen_info["rootwin"] = rw_info
-        ctx.say("call graph: %d functions, %d edges, %d can reach janet_collect; builder windows: %d calls in %d functions; family closure %d; uncertified pairs in %d collecting functions" % (
-            rw_info["functions"], rw_info["call_edges"], rw_info["may_collect"], rw_info["begin_end_rows"], rw_info["begin_end_functions"],
+        ctx.say("call graph: %d functions, %d edges, %d can reach janet_collect, %d of them outside gclock regions; builder windows: %d calls in %d functions; family closure %d; uncertified pairs in %d collecting functions" % (
+            rw_info["functions"], rw_info["call_edges"], rw_info["may_collect_any_path"], rw_info["may_collect"], rw_info["begin_end_rows"], rw_info["begin_end_functions"],
             rw_info["family_closure"], len(rw_info["uncertified_window_pairs"])))
     except ExtractError as e:
         broken.append("translator tools/gen/gcroot.py: %s" % e)
@@ -634,6 +686,10 @@ def _run(ctx, quick, broken, exes, driver, tmp, gen_info, only_replay):
     if os.environ.get("C01_PROFILE"):
         for c, k in sorted(((getattr(j, "cpu", 0), j.key()) for _, j in jobs), reverse=True)[:60]:
             ctx.say("  cpu %6.1fs %s" % (c, k))
+    stack_tie = stacks_stage(ctx, exes["plain"], gen_info, broken)
+    if stack_tie:
+        ctx.say("C stacks at collections: %d distinct, %s may-collect functions seen, contradictions: %s" % (
+            stack_tie["distinct_stacks"], stack_tie["of_the_may_collect_set_seen"], stack_tie["contradictions"] or "none"))
     new_viol = ctx.nviol - nviol_before
     if broken and not new_viol:
         ctx.violation("broken:" + broken[0][:80], {"kind": "broken-obligation", "broken": broken[:20]}, found=False,
@@ -658,14 +714,17 @@ def _run(ctx, quick, broken, exes, driver, tmp, gen_info, only_replay):
         "collections_with_unknown_abstract_gcmark": tot["opaque_collections"],
         "edge_labels_seen": dict(sorted(label_edges.items())), "edge_labels_exclusive_max": dict(sorted(crit_seen.items())),
         "cpu_seconds": {"executions": round(cpu_exec, 1), "all_children": round(cpu_all, 1), "by_class": {k: round(v, 1) for k, v in sorted(cpu_by.items())}},
+        "c_stacks_at_collections_vs_call_graph": stack_tie,
         "schedule_variant_histogram": sched_hist, "generated_statement_kinds": dict(sorted(kinds.items())),
         "differences_not_reproduced_on_rerun": flaky,
         "model_dumps_checked": model_checked, "model_dump_diffs": model_diffs, "model_stats": model_stats,
         "root_protocol_histories": roots_tot,
-        "scenarios": len(scen), "generated_programs": n_small + n_large, "suites": len(suites), "translator": gen_info,
+        "scenarios": len(scen), "generated_programs": n_small + n_large, "suites": len(suites),
+        "translator": {k: ({kk: vv for kk, vv in v.items() if kk != "function_names"} if k == "rootwin" else v) for k, v in gen_info.items()},
     }
     return ctx.finish("proof", cov, assumptions=[
-        "rooting discipline of C code: PROVED for every function that cannot reach janet_collect in the regenerated whole-program call graph (1391 of 1501 functions on the pinned tree, incl. every _begin .. _end builder window, marshal / unmarshal, PEG compilation, the parser); for the functions that can be interrupted by a collection (run_vm, peg_rule, the compiler's special forms, ...) it is TESTED by the schedule comparison under ASan, not proved - their allocation -> collection site pairs are listed in translator.rootwin.uncertified_window_pairs",
+        "rooting discipline of C code: PROVED for every function that cannot reach janet_collect in the regenerated whole-program call graph other than through a call site inside a janet_gclock region (1445 of 1501 functions on the pinned tree, incl. every _begin .. _end builder window, marshal / unmarshal, PEG compilation, the parser, the compiler); for the functions that can be interrupted by an unsuspended collection (run_vm, peg_rule, janet_continue, janet_pcall, the event loop, ...) it is TESTED by the schedule comparison under ASan, not proved - their allocation -> collection site pairs are listed in translator.rootwin.uncertified_window_pairs",
+        "janet_gclock regions: the must-analysis is intra-procedural (a callee inside the region is assumed not to lower gc_suspend below the region's level: janet_gcunlock restores the callee's own handle, Gen/GC.lean lists every write of gc_suspend); validated on every graph run - a library function on the C stack of a real collection must be in the unlocked may-collect set",
         "the call graph over-approximates indirect calls by LLVM function type over address-taken functions (no calls through pointers cast to another function type) and treats functions outside the library (libc) as unable to call back except through a function address the caller mentions",
         "the Lean model abstracts a block to (kind, ordered edge list with value/pointer/weak class); the harness's independent enumerator is the tie",
         "collections happen only at interpreter safepoints / explicit janet_collect calls; the forced-schedule hook covers maybe_collect in vm.c",
